@@ -1508,6 +1508,16 @@ RESP_PARAMS = {
         'max': 3,
         'msgs': [['/a', [1], A, 0], ['/a', [1], A, 1], ['/a[', [1], A, 0],
                  ['/[!b]', [1], B, 1]]},
+    # both: source address (with and without a port) together with a
+    # receive port, every sender x port combination
+    'both': {
+        'variants': [['/a', False, [HOST, None], PORT2, None],
+                     ['/a', False, A, PORT2, None],
+                     ['/a', True, [HOST, None], PORT2, [1]],
+                     ['/a', False, [HOST, None], None, None]],
+        'max': 3,
+        'msgs': [['/a', [1], A, 0], ['/a', [1], A, 1], ['/a', [1], B, 1],
+                 ['/a', [2], B, 0]]},
 }
 
 
